@@ -59,6 +59,7 @@ import PyhamModel.Lemmas.LeafProfile
 import PyhamModel.Lemmas.SaxSim
 import PyhamModel.Lemmas.Chaining
 import PyhamModel.Lemmas.GainedCount
+import PyhamModel.Lemmas.LostCount
 import PyhamModel.Lemmas.LateSpecies
 namespace Pyham.Props
 open Pyham
@@ -298,6 +299,22 @@ theorem C06_gained_count_is_the_history (D : Dataset) (hc : D.Consistent) :
       (hogsMap H a d).gain.length =
         (D.fams.map fun f => if f.1.isSuffixOf a then 0 else lineagesAt d f.1 f.2).sum :=
   Pyham.C06_gained_count_is_the_history D hc
+
+/-- **how many genes are lost over any branch**, on the hierarchy: the members of the genome at `a` with no node at `d` in
+    their subtree (every singleton that sits at `a` included) -/
+theorem C06_lost_count (H : Ham) (hw : H.WFc) (a d : Taxon) (hne : a ≠ d) :
+    (hogsMap H a d).loss.length =
+      famSum H (fun top => ((locs [] top).filter fun l =>
+        l.node.tx == a && (l.node.nodes.filter fun y => y.tx == d).isEmpty).length) +
+      (singletonsAt H a).length :=
+  Pyham.C06_lost_count H hw a d hne
+
+/-- ... END TO END, on the histories: for every consistent dataset and ancestral nodes `a`, `d`, the comparison reports as many
+    lost genes as lineages of the histories cross `a` and have no lineage crossing `d` below them (`extinctAt`) -/
+theorem C06_lost_count_is_the_history (D : Dataset) (hc : D.Consistent) :
+    ∃ H, load D.T D.nm D.file = .ok H ∧ ∀ a d, a ≠ d → D.T.isInternalAt a = true → D.T.isInternalAt d = true →
+      (hogsMap H a d).loss.length = (D.fams.map fun f => extinctAt a d f.1 f.2).sum :=
+  Pyham.C06_lost_count_is_the_history D hc
 
 /-- `Loc.rootTx` is the taxon of the outermost ancestor (the top-level HOG), or of the member itself when it has none -/
 theorem C06_rootTx_is_top (H : Ham) (hw : H.WFc) (r : Loc) (hr : r ∈ H.allLocs) :
